@@ -126,9 +126,41 @@ def build_indelmap(s, ctor, desc):
     raise ValueError(ctor)
 
 
-def build_indelmap_container(s, ctor, container, desc):
-    """A real IndelMap for string s: constructor `ctor`, its argument handed over in `container`."""
+def scribble(obj):
+    """The caller writes in place into something it kept / was handed back.
+
+    Returns 'written', 'refused' (the object does not allow it) or 'nothing' (immutable / empty)."""
+    if isinstance(obj, numpy.ndarray):
+        if not obj.size:
+            return "nothing"
+        try:
+            obj[...] = obj + 1
+        except ValueError:  # read-only array
+            return "refused"
+        return "written"
+    if isinstance(obj, list):
+        if not obj:
+            return "nothing"
+        for x in obj:
+            if isinstance(x, list) and x:
+                x[0] += 1
+        obj.clear()
+        return "written"
+    if isinstance(obj, dict):
+        if not obj:
+            return "nothing"
+        obj.clear()
+        return "written"
+    return "nothing"
+
+
+def build_indelmap_container(s, ctor, container, desc, keep=None):
+    """A real IndelMap for string s: constructor `ctor`, its argument handed over in `container`.
+
+    keep: a list that receives the argument objects the caller still holds afterwards."""
     from cogent3.core.location import IndelMap, gap_coords_to_map
+
+    keep = [] if keep is None else keep
 
     if ctor == "segments":
         locs = [tuple(x) for x in desc["res_align"]]
@@ -140,21 +172,30 @@ def build_indelmap_container(s, ctor, container, desc):
             "array": lambda: numpy.array(locs, dtype=int).reshape((-1, 2)),
             "list_of_lists": lambda: [list(x) for x in locs],
         }[container]()
+        keep.append(arg)
         return IndelMap.from_aligned_segments(locations=arg, aligned_length=desc["len"])
     if ctor == "spans":
         spans = rle_forward(desc["entries"])
-        return IndelMap.from_spans(spans=spans if container == "list" else tuple(spans), parent_length=desc["plen"])
+        spans = spans if container == "list" else tuple(spans)
+        keep.append(spans)
+        return IndelMap.from_spans(spans=spans, parent_length=desc["plen"])
     if ctor == "gapdict":
         if container == "dict":
             d = {int(p): int(l) for p, l in desc["gap_coords"]}
         else:
             d = {numpy.int64(p): numpy.int64(l) for p, l in desc["gap_coords"]}
+        keep.append(d)
         return gap_coords_to_map(d, desc["plen"])
     if ctor == "arrays":
         if container == "gap_lengths":
-            return IndelMap(gap_pos=numpy.array(desc["gap_pos"], dtype=I32), gap_lengths=numpy.array([l for _, l in desc["gap_coords"]], dtype=I32), parent_length=desc["plen"])
+            pos = numpy.array(desc["gap_pos"], dtype=I32)
+            lens = numpy.array([l for _, l in desc["gap_coords"]], dtype=I32)
+            keep.extend([pos, lens])
+            return IndelMap(gap_pos=pos, gap_lengths=lens, parent_length=desc["plen"])
         dt = numpy.int32 if container == "int32" else numpy.int64
-        return IndelMap(gap_pos=numpy.array(desc["gap_pos"], dtype=dt), cum_gap_lengths=numpy.array(desc["cum"], dtype=dt), parent_length=desc["plen"])
+        pos, cum = numpy.array(desc["gap_pos"], dtype=dt), numpy.array(desc["cum"], dtype=dt)
+        keep.extend([pos, cum])
+        return IndelMap(gap_pos=pos, cum_gap_lengths=cum, parent_length=desc["plen"])
     if ctor == "parse":
         return build_indelmap(s, "parse", desc)
     raise ValueError((ctor, container))
@@ -384,12 +425,23 @@ def build_featuremap(mdef, ctor):
     raise ValueError(ctor)
 
 
-def build_featuremap_container(mdef, container):
+def im_returned(m, what):
+    """Something a query of the map hands back to the caller."""
+    if what == "gap_pos":
+        return m.gap_pos
+    if what == "cum_gap_lengths":
+        return m.cum_gap_lengths
+    return getattr(m, what)()
+
+
+def build_featuremap_container(mdef, container, keep=None):
     """A real FeatureMap for the spec map, its spans / locations handed over in `container`."""
     from cogent3.core.location import FeatureMap
 
+    keep = [] if keep is None else keep
     spans, P = mdef["spans"], mdef["plen"]
     L = real_spans(spans)
+    keep.append(L)
     if container == "list":
         return FeatureMap(spans=L, parent_length=P)
     if container == "tuple":
@@ -404,13 +456,16 @@ def build_featuremap_container(mdef, container):
         return FeatureMap.from_spans(spans=L, parent_length=P)
     if container == "from_spans_map_spans":
         return FeatureMap.from_spans(spans=FeatureMap(spans=L, parent_length=P).spans, parent_length=P)
-    locs = [(s, e) for s, e, _ in spans]
+    locs = [[s, e] for s, e, _ in spans] if container == "locations_list" else [(s, e) for s, e, _ in spans]
     if container == "locations_list":
+        keep.append(locs)
         return FeatureMap.from_locations(locations=locs, parent_length=P)
     if container == "locations_tuple":
         return FeatureMap.from_locations(locations=tuple(locs), parent_length=P)
     if container == "locations_array":
-        return FeatureMap.from_locations(locations=numpy.array(locs, dtype=int).reshape((-1, 2)), parent_length=P)
+        arr = numpy.array(locs, dtype=int).reshape((-1, 2))
+        keep.append(arr)
+        return FeatureMap.from_locations(locations=arr, parent_length=P)
     raise ValueError(container)
 
 
